@@ -49,7 +49,10 @@ def check_digest(ctx, sd, real, elab):
 
 
 def gen_cases(ctx, n_schemas, n_texts, handlers=False, nfaults=(0, 0, 1, 1, 2, 3), faults=None, plain=False, systematic=True,
-              phandler=0.5):
+              phandler=0.5, pempty=0.0):
+    """pempty > 0: keys whose datatype converts the empty string are given WITH the empty value (alone on their line, or
+    through a reference to a name defined as nothing) in that share of their occurrences in the random texts, and every schema
+    gets two further fault-free texts in which most such keys are (one literal, one through references)"""
     rng = ctx.rng
     cases = []
     for _ in range(n_schemas):
@@ -58,7 +61,7 @@ def gen_cases(ctx, n_schemas, n_texts, handlers=False, nfaults=(0, 0, 1, 1, 2, 3
         # schema-loading regression surfaces as a concrete (schema, text) on which the loader's result is wrong
         check_digest(ctx, sd, real, elab)
         for _ in range(n_texts):
-            items = cfggen.gen_items(rng, elab, None, 3)
+            items = cfggen.gen_items(rng, elab, None, 3, pempty=pempty)
             fl = []
             for _ in range(rng.choice(nfaults)):
                 f = cfggen.apply_fault(rng, elab, items, rng.choice(faults or cfggen.FAULTS))
@@ -71,6 +74,21 @@ def gen_cases(ctx, n_schemas, n_texts, handlers=False, nfaults=(0, 0, 1, 1, 2, 3
             c.overrides = ()
             c.meta = {"items": items}
             cases.append(c)
+        if pempty:
+            for by_ref in (False, True):
+                items = cfggen.gen_items(rng, elab, None, 3, pfill=0.9, pempty=0.8)
+                if by_ref and not cfggen.empty_by_reference(rng, items, 0.7):
+                    continue
+                if not by_ref and not cfggen.empty_given(elab, items):
+                    continue
+                c = Case()
+                c.sd, c.real, c.elab, c.hnames = sd, real, elab, hn
+                c.lines = cfggen.render_lines(rng, items, plain=plain)
+                c.faults = []
+                c.overrides = ()
+                c.meta = {"items": items}
+                cases.append(c)
+                ctx.count("systematic:given-empty" + ("-by-reference" if by_ref else ""))
         if systematic:
             # one text per fault kind with exactly that fault (when the schema offers a place for it)
             for fk in (faults or cfggen.FAULTS):
@@ -200,7 +218,7 @@ def evaluate(ctx, cases, fresh_schema=False, with_spec=False):
     return cases
 
 
-def shrink_lines(ctx, c, still_fails):
+def shrink_lines(ctx, c, still_fails, with_spec=False):
     """delta-debug the text of a failing case; still_fails(list_of_cases)->list of bool"""
     from . import util
 
@@ -211,6 +229,6 @@ def shrink_lines(ctx, c, still_fails):
             d.sd, d.real, d.elab, d.hnames = c.sd, c.real, c.elab, c.hnames
             d.lines, d.faults, d.overrides, d.meta, d.files = ls, c.faults, c.overrides, c.meta, c.files
             cs.append(d)
-        evaluate(ctx, cs)
+        evaluate(ctx, cs, with_spec=with_spec)
         return still_fails(cs)
     return util.shrink_seq(list(c.lines), fails)
